@@ -70,6 +70,12 @@ def cases(tier, seed):
                    'family': '1d' if i % 2 == 0 else '2d', 'mask_mode': modes[i % len(modes)],
                    'fold': (i // 2) % 2 == 1, 'time_style': 'real' if i % 5 == 0 else 'binary',
                    'seed': seed * 104729 + i})
+    # a searchable layer (alone, or together with its BatchNorm) invoked twice in forward
+    for i in range(32 if tier == 'quick' else 600):
+        cs.append({'kind': 'reuse', 'prog_seed': seed * 7907 + i, 'family': '1d' if i % 2 else '2d',
+                   'mask_mode': modes[i % len(modes)], 'fold': (i // 2) % 2 == 1,
+                   'time_style': 'real' if i % 5 == 0 else 'binary', 'same': (i // 4) % 2 == 0,
+                   'with_bn': (i // 8) % 4 != 3, 'seed': seed * 7717 + i})
     # the repository's own unit_test models, channel masks only
     for i, name in enumerate(REPO_MODELS * (1 if tier == 'quick' else 8)):
         cs.append({'kind': 'repo-model', 'model': name, 'fold': i % 2 == 1,
@@ -262,9 +268,13 @@ def assign_time_masks(pit, rng, style):
 
 def run_random(case, ctx, gen_opts=None):
     rng = random.Random(case['prog_seed'])
+    if case['kind'] == 'reuse':
+        prog = pitgen.reuse_program(rng, case['family'], case['same'], case['with_bn'])
+    else:
+        prog = None
     # (fixed layers, residual sums with a concat / fixed operand, depthwise after a concat are part
     # of the grammar since the masker-sharing repair: PIT freezes what it cannot mask)
-    prog = pitgen.gen_valid_program(rng, family=case['family'], opts=gen_opts or {
+    prog = prog or pitgen.gen_valid_program(rng, family=case['family'], opts=gen_opts or {
         'allow_fixed': True, 'p_fixed_stem': 0.15,
         'hazards': ('add-of-cat', 'dw-after-cat', 'add-of-fixed', 'dw-after-fixed',
                     'excluded-consumer')})
